@@ -65,6 +65,7 @@ pub struct VerifierState { pub sketch: SketchState, pub output_share: Vec<Fe> }
 def unit():
     u = VUnit('pop_vstate_decode', 'Poplar1 VerifierState::decode_with_param: wire-supplied count; the result is backed by input bytes')
     u.oracle = {'inject': 'src/vdaf/poplar1.rs', 'file': 'pop_alloc_oracle.rs', 'test': 'verif_oracle_pop_alloc::oracle_vstate_alloc'}
+    u.oracle_always = True       # the allocation clause is not expressible in Verus: thorough tier runs the executable contract on every run
     u.raw(PRELUDE, 'abstract-codec')
     u.item(F, ["ParameterizedDecode<\\(&'a Poplar1<P, SEED_SIZE>, usize\\)> for VerifierState<F>", 'fn decode_with_param'], ret='r', name='vstate_decode',
            rewrites=[(r"decoding_parameter: &\(&'a Poplar1<P, SEED_SIZE>, usize\),", '', 1), (r'bytes: &mut Cursor<&\[u8\]>', 'bytes: &mut Cur', 1), (r'Result<Self, CodecError>', 'Result<VerifierState, CodecError>', 1),
